@@ -52,7 +52,8 @@ proof {
 //@rewrite "let dodecahedron = DodecahedronProjection::get_thread_local();" => ""
 //@rewrite "dodecahedron.inverse(" => "dodecahedron_inverse("
 //@rewrite "let opts = options.unwrap_or_default();" => "let opts = match options { Some(o) => o, None => CellToBoundaryOptions { closed_ring: true, segments: None } };"
-//@rewrite "let segments = opts\n        .segments\n        .unwrap_or_else(|| max_i32(1, 2_i32.pow((6 - cell_data.resolution).max(0) as u32)));" => "let segments = match opts.segments { Some(v) => v, None => max_i32(1, 2_i32.pow(max_i32(6 - cell_data.resolution, 0) as u32)) };"
+//@rewrite? "let segments = opts.segments.unwrap_or_else(|| max_i32(1, 2_i32.pow((6 - cell_data.resolution).max(0) as u32)));" => "let segments = match opts.segments { Some(v) => v, None => max_i32(1, 2_i32.pow(max_i32(6 - cell_data.resolution, 0) as u32)) };"
+//@rewrite? "let segments = opts.segments.unwrap_or_else(|| { max_i32(1, 2_i32.pow((6 - cell_data.resolution).max(0) as u32)) });" => "let segments = match opts.segments { Some(v) => v, None => max_i32(1, 2_i32.pow(max_i32(6 - cell_data.resolution, 0) as u32)) };"
 //@rewrite "segments.max(1) as usize" => "max_i32(segments, 1) as usize"
 //@rewrite "for vertex in vertices {\n        let unprojected = dodecahedron_inverse(*vertex, cell_data.origin_id)?;" => "for __kv in 0..vertices.len() {\n        let vertex = &vertices[__kv];\n        let unprojected = dodecahedron_inverse(*vertex, cell_data.origin_id)?;"
 //@rewrite "for vertex in unprojected_vertices {" => "for __ku in 0..unprojected_vertices.len() {\n        let vertex = unprojected_vertices[__ku];"
@@ -122,7 +123,8 @@ ensures
 //@rewrite "unique_estimates.push(estimate.clone());" => "unique_estimates.push(cell_clone(&estimate));"
 //@rewrite "let mut cells = Vec::new();" => "let mut cells: Vec<(A5Cell, f64)> = Vec::new();"
 //@rewrite "let mut unique_estimates = Vec::new();" => "let mut unique_estimates: Vec<A5Cell> = Vec::new();"
-//@rewrite "cells.sort_by(|a, b| b.1.partial_cmp(&a.1).unwrap_or(std::cmp::Ordering::Equal));" => "sort_cells_by_distance(&mut cells);"
+//@rewrite? "cells.sort_by(|a, b| b.1.partial_cmp(&a.1).unwrap_or(std::cmp::Ordering::Equal));" => "sort_cells_by_distance(&mut cells);"
+//@rewrite? "cells.sort_by(|a, b| { b.1.partial_cmp(&a.1).unwrap_or(std::cmp::Ordering::Equal) });" => "sort_cells_by_distance(&mut cells);"
 //@spec
 ensures
     (resolution < -1 || resolution > 29) ==> res is Err,                           // [C14:lonlat_to_cell.rejects-range]
